@@ -3,6 +3,7 @@ package props
 import (
 	"bytes"
 	"fmt"
+	"regexp"
 	"strings"
 
 	"verif/internal/model"
@@ -64,7 +65,19 @@ func (p *C09) Gen(seed uint64, i int, tier string) *scen.Scenario {
 		}
 		sc.Setup = append(sc.Setup, op)
 	}
+	adv := &c02Gen{r: r}
 	vals := func(n int) []scen.Arg {
+		if r.Chance(1, 3) {
+			// any attribute the API accepts: every value kind, reserved key names ("time", "level", ...), malformed lists
+			var out []scen.Arg
+			for _, a := range adv.list(n, 1) {
+				out = append(out, a)
+			}
+			if r.Chance(1, 3) {
+				out = append(out, scen.Arg{K: "attr", Key: scen.Pick(r, []string{"time", "level", "msg", "caller", "zzz"}), Items: []scen.Arg{{K: scen.Pick(r, []string{"time", "s", "i", "dur"}), I: int64(r.Intn(2000000000)), S: "x"}}})
+			}
+			return out
+		}
 		var as []scen.Arg
 		for k := 0; k < n; k++ {
 			key := fmt.Sprintf("k%d", r.Intn(30))
@@ -93,6 +106,7 @@ func (p *C09) Gen(seed uint64, i int, tier string) *scen.Scenario {
 		Msg:  scen.Pick(r, []string{"probe message", "probe first line\nsecond line\nthird", "p", "probe with trailing newline\n"}),
 		Args: vals(r.Intn(6)),
 	}
+	probe.Args = noAddresses(probe.Args) // values that print their heap address are new objects at every evaluation of the op
 	sc.Setup = append(sc.Setup, probe)
 	// history on 1-4 tasks
 	G := scen.Pick(r, []int{1, 1, 2, 3, 4})
@@ -142,6 +156,36 @@ func (p *C09) Gen(seed uint64, i int, tier string) *scen.Scenario {
 	return sc
 }
 
+// noAddresses drops the value kinds whose text contains a heap address (func, chan, pointer).
+func noAddresses(as []scen.Arg) []scen.Arg {
+	var out []scen.Arg
+	for _, a := range as {
+		switch a.K {
+		case "func", "chan", "ptr":
+			continue
+		}
+		a.Items = noAddresses(a.Items)
+		if (a.K == "attr" || a.K == "typed") && len(a.Items) == 0 {
+			continue
+		}
+		out = append(out, a)
+	}
+	return out
+}
+
+func hasAddresses(as []scen.Arg) bool {
+	for _, a := range as {
+		switch a.K {
+		case "func", "chan", "ptr":
+			return true
+		}
+		if hasAddresses(a.Items) {
+			return true
+		}
+	}
+	return false
+}
+
 func (p *C09) WellFormed(sc *scen.Scenario) bool {
 	var pr *scen.Op
 	n := 0
@@ -151,7 +195,7 @@ func (p *C09) WellFormed(sc *scen.Scenario) bool {
 			n++
 		}
 	}
-	if pr == nil || n != 1 || pr.Op != "write_thru" || pr.T == nil {
+	if pr == nil || n != 1 || pr.Op != "write_thru" || pr.T == nil || hasAddresses(pr.Args) {
 		return false
 	}
 	a, _ := jsonOf(pr)
@@ -246,7 +290,8 @@ func (p *C09) Check(sc *scen.Scenario, run *orch.Run, env *orch.Env) []orch.Viol
 			continue
 		}
 		for k := range pristine {
-			a, b := pristine[k].P, o.Writes[k].P
+			// heap addresses printed for pointer-like values differ between two evaluations of the same op
+			a, b := heapAddrRe.ReplaceAll(pristine[k].P, []byte("0xADDR")), heapAddrRe.ReplaceAll(o.Writes[k].P, []byte("0xADDR"))
 			if pristine[k].W != o.Writes[k].W {
 				out = append(out, orch.Violation{Rule: "C09.destination", Witness: "writer", Detail: fmt.Sprintf("probe went to writer %d pristine and to %d after the history", pristine[k].W, o.Writes[k].W)})
 			}
@@ -268,6 +313,8 @@ func (p *C09) Check(sc *scen.Scenario, run *orch.Run, env *orch.Env) []orch.Viol
 	}
 	return dedupe(out)
 }
+
+var heapAddrRe = regexp.MustCompile(`0x[0-9a-f]{6,}`)
 
 func max0(a int) int {
 	if a < 0 {
